@@ -34,7 +34,7 @@ SPdef(s) == CASE s = "CH"  -> <<At("C",0,0,0), At("H",1,0,0)>>
 \* replacement patterns: atoms, bonds, angles (0-based indices into atoms)
 RPnames(s) == CASE s = "CH"  -> {"CF", "COH", "E", "N1", "HC"}
                 [] s = "NCN" -> {"NSiN", "NSiNr", "NSiO", "OSiO", "E"}
-                [] s = "CCH" -> {"CCF", "CCHa", "E"}
+                [] s = "CCH" -> {"CCF", "CCHa", "CCHm", "E"}
                 [] s = "CHN" -> {"HCF", "CHF"}
 RPdef(r) ==
   CASE r = "E"    -> [atoms |-> <<>>, bonds |-> <<>>, angles |-> <<>>]
@@ -45,6 +45,7 @@ RPdef(r) ==
     [] r = "NSiN" -> [atoms |-> <<At("N",0,0,0), At("Si",1,0,0), At("N",2,0,0)>>, bonds |-> <<<<0,1>>, <<1,2>>>>, angles |-> <<<<2,1,0>>>>]
     [] r = "NSiNr" -> [atoms |-> <<At("N",2,0,0), At("Si",1,0,0), At("N",0,0,0)>>, bonds |-> <<<<0,1>>, <<1,2>>>>, angles |-> <<<<0,1,2>>>>]  \* shared atoms listed in the other order
     [] r = "CCHa" -> [atoms |-> <<At("C",0,0,0), At("C",1,0,0), At("H",1,1,0)>>, bonds |-> <<<<1,0>>>>, angles |-> <<<<2,1,0>>>>]   \* all atoms retained; one angle redeclared backwards
+    [] r = "CCHm" -> [atoms |-> <<At("C",0,0,0), At("C",1,0,0), At("H",1,1,0)>>, bonds |-> <<<<0,1>>, <<2,1>>>>, angles |-> <<<<0,1,2>>>>]   \* all atoms retained; two existing bonds redeclared, one in each direction
     [] r = "HCF"  -> [atoms |-> <<At("H",0,1,0), At("C",0,0,0), At("F",1,0,0)>>, bonds |-> <<<<1,2>>>>, angles |-> <<<<0,1,2>>>>]   \* shared atoms in another order
     [] r = "CHF"  -> [atoms |-> <<At("C",0,0,0), At("H",0,1,0), At("F",1,0,0)>>, bonds |-> <<<<0,2>>>>, angles |-> <<>>]
     [] r = "NSiO" -> [atoms |-> <<At("N",0,0,0), At("Si",1,0,0), At("O",2,0,0)>>, bonds |-> <<<<0,1>>, <<1,2>>>>, angles |-> <<<<0,1,2>>>>]
@@ -98,7 +99,9 @@ DedupTerms(acc, rest) == IF rest = <<>> THEN acc
                          ELSE DedupTerms(Append(acc, Head(rest)), Tail(rest))
 StructBonds(s, lay) == DedupTerms(<<>>,
   <<<<0, CopyTuple(s, lay, 1)[1] - 1>>>> \o
-  [c \in 1..Len(lay) |-> LET t == CopyTuple(s, lay, c) IN IF c % 2 = 1 THEN <<t[1] - 1, t[2] - 1>> ELSE <<t[2] - 1, t[1] - 1>>])
+  [c \in 1..Len(lay) |-> LET t == CopyTuple(s, lay, c) IN IF c % 2 = 1 THEN <<t[1] - 1, t[2] - 1>> ELSE <<t[2] - 1, t[1] - 1>>] \o
+  \* three-atom patterns: also the bond 2-3 of every copy (always listed forwards)
+  (IF Len(SPdef(s)) < 3 THEN <<>> ELSE [c \in 1..Len(lay) |-> LET t == CopyTuple(s, lay, c) IN <<t[2] - 1, t[3] - 1>>]))
 StructAngles(s, lay) ==
   IF Len(SPdef(s)) < 3 THEN <<>>
   ELSE DedupTerms(<<>>, Cat([c \in 1..Len(lay) |-> LET t == CopyTuple(s, lay, c)
